@@ -48,14 +48,14 @@ Ltac unfold_cmds :=
          c_sadd, c_srem, c_smembers, c_sismember, c_scard,
          c_hset, c_hget, c_hdel, c_hgetall, c_hkeys, c_hvals, c_hlen, c_hexists, c_hincrby,
          c_zadd, c_zrem, c_zscore, c_zrank, c_zcard, c_zcount, c_zrange, c_zrangebyscore,
-         old_str, ROk, RNil, RB in *.
+         getrange, old_str, ROk, RNil, RB in *.
 
 Ltac crush_err :=
   intros; repeat (simpl in *; first [ discriminate | reflexivity | case_match ]).
 
 (* every single-key command: an error reply means the entry at the key is untouched *)
-Lemma key_fun_err now c k f oe :
-  key_fun now c = Some (k, f) → is_error (f oe).2 = true → (f oe).1 = oe.
+Lemma key_fun_err dl now c k f oe :
+  key_fun dl now c = Some (k, f) → is_error (f oe).2 = true → (f oe).1 = oe.
 Proof.
   destruct c; simpl; intros H; inversion H; subst; clear H; unfold_cmds; crush_err.
 Qed.
@@ -91,8 +91,8 @@ Proof.
 Qed.
 
 (* every single-key command keeps "no empty collection, deadline in the future" at its key *)
-Lemma key_fun_ok now c k f oe :
-  key_fun now c = Some (k, f) → oentry_ok now oe → oentry_ok now (f oe).1.
+Lemma key_fun_ok dl now c k f oe :
+  key_fun dl now c = Some (k, f) → oentry_ok now oe → oentry_ok now (f oe).1.
 Proof.
   destruct c; simpl; intros H; inversion H; subst; clear H; unfold_cmds; intros Hok.
   all: try (destruct oe as [[v d]|]; crush_ok; fail).
@@ -109,8 +109,8 @@ Proof.
 Qed.
 
 (* the key a single-key command works on does not depend on the clock *)
-Lemma key_fun_key now now' c k f :
-  key_fun now c = Some (k, f) → ∃ f', key_fun now' c = Some (k, f').
+Lemma key_fun_key dl dl' now now' c k f :
+  key_fun dl now c = Some (k, f) → ∃ f', key_fun dl' now' c = Some (k, f').
 Proof. destruct c; simpl; intros H; inversion H; subst; eauto. Qed.
 
 (* ------------------------------------------------------------------ C17: errors change nothing *)
@@ -120,13 +120,13 @@ Proof. unfold c_rename, ROk. crush_err. Qed.
 Lemma c_lmove_err s a b fl tl : is_error (c_lmove s a b fl tl).2 = true → (c_lmove s a b fl tl).1 = s.
 Proof. unfold c_lmove, RNil, RB. crush_err. Qed.
 
-Theorem error_no_effect_lemma : ∀ s now c,
-  is_error (exec s now c).2 = true → (exec s now c).1 = s.
+Theorem error_no_effect_lemma : ∀ dl s now c,
+  is_error (exec dl s now c).2 = true → (exec dl s now c).1 = s.
 Proof.
-  intros s now c. unfold exec. destruct (cmd_reject c); [done|].
-  unfold exec_wf. destruct (key_fun now c) as [[k f]|] eqn:K.
+  intros dl s now c. unfold exec. destruct (cmd_reject c); [done|].
+  unfold exec_wf. destruct (key_fun dl now c) as [[k f]|] eqn:K.
   - unfold on_key. destruct (f (s !! k)) as [oe r] eqn:F. simpl. intros Hr.
-    pose proof (key_fun_err now c k f (s !! k) K) as He. rewrite F in He. simpl in He.
+    pose proof (key_fun_err dl now c k f (s !! k) K) as He. rewrite F in He. simpl in He.
     rewrite (He Hr). apply upd_id.
   - destruct c; simpl in K; try discriminate; simpl; try done.
     + destruct (existsb _ _); done.
@@ -139,20 +139,20 @@ Qed.
 
 (* ------------------------------------------------------------------ C17: read-only commands *)
 
-Lemma key_fun_ro now c k f oe :
-  key_fun now c = Some (k, f) → ro_impl (tag c) = true → (f oe).1 = oe.
+Lemma key_fun_ro dl now c k f oe :
+  key_fun dl now c = Some (k, f) → ro_impl (tag c) = true → (f oe).1 = oe.
 Proof.
   destruct c; simpl; intros H R; try (vm_compute in R; discriminate R);
     inversion H; subst; clear H R; unfold_cmds; repeat case_match; reflexivity.
 Qed.
 
-Theorem read_only_no_effect_lemma : ∀ s now c,
-  ro_impl (tag c) = true → (exec s now c).1 = s.
+Theorem read_only_no_effect_lemma : ∀ dl s now c,
+  ro_impl (tag c) = true → (exec dl s now c).1 = s.
 Proof.
-  intros s now c R. unfold exec. destruct (cmd_reject c); [done|].
-  unfold exec_wf. destruct (key_fun now c) as [[k f]|] eqn:K.
+  intros dl s now c R. unfold exec. destruct (cmd_reject c); [done|].
+  unfold exec_wf. destruct (key_fun dl now c) as [[k f]|] eqn:K.
   - unfold on_key. destruct (f (s !! k)) as [oe r] eqn:F. simpl.
-    pose proof (key_fun_ro now c k f (s !! k) K R) as He. rewrite F in He. simpl in He.
+    pose proof (key_fun_ro dl now c k f (s !! k) K R) as He. rewrite F in He. simpl in He.
     rewrite He. apply upd_id.
   - destruct c; simpl in K; try discriminate; try (vm_compute in R; discriminate R); done.
 Qed.
